@@ -18,7 +18,7 @@ pub enum SAct
 {
     Spawn, SpawnSys(usize), On(SMode, usize, Vec<STrig>), With(SMode, Ref, Vec<STrig>), Once(usize, Vec<STrig>),
     Revoke(usize), Run(Ref), SysEvent(Ref, usize, u32), Broadcast(usize, u32), EntityEvent(Ref, usize, u32),
-    ResMut(usize), ResSet(usize, u32, bool), ResRead(usize), Insert(Ref, usize, u32), Mutate(Ref, usize, u32),
+    ResMut(usize), ResSet(usize, u32, bool), ResRead(usize), Insert(Ref, usize, u32), Mutate(Ref, usize, u32), MutNr(Ref, usize, u32), ResNr(usize, u32),
     SetNeq(Ref, usize, u32), ReadComp(Ref, usize), Remove(Ref, usize), Despawn(Ref), DespawnRec(Ref),
     EwrAdd(usize, Ref, u32), EwrRemove(usize, Vec<STrig>), WrAdd(usize, Vec<STrig>), WrRemove(usize, Vec<STrig>), WrRun(usize),
 }
@@ -94,6 +94,8 @@ fn parse_act(t: &[&str]) -> Option<SAct>
         ["resread", ty] => SAct::ResRead(num(ty)?),
         ["insert", e, ty, v] => SAct::Insert(parse_ref(e)?, num(ty)?, num(v)?),
         ["mutate", e, ty, v] => SAct::Mutate(parse_ref(e)?, num(ty)?, num(v)?),
+        ["mutnr", e, ty, v] => SAct::MutNr(parse_ref(e)?, num(ty)?, num(v)?),
+        ["resnr", ty, v] => SAct::ResNr(num(ty)?, num(v)?),
         ["setneq", e, ty, v] => SAct::SetNeq(parse_ref(e)?, num(ty)?, num(v)?),
         ["read", e, ty] => SAct::ReadComp(parse_ref(e)?, num(ty)?),
         ["remove", e, ty] => SAct::Remove(parse_ref(e)?, num(ty)?),
